@@ -73,6 +73,11 @@ CHECKS = {
                      "attribute names, injected-function arguments, tree names, branch names and dict keys; the value received by the running job must equal the Python constant exactly, or "
                      "translation must raise.",
                 note="NaN has no Python literal and is not formed; inf is formed as 1e999", ref="4/C18"),
+    "C11": dict(cat="exploration", technique="icontract post-condition on the real cpp_ast.process_ast_node (independent token-wise simultaneous substitution, freshness, scoping) + execution of random executable specifications against the Python formula",
+                text="Random function/method specifications with adversarial parameter names and look-alike temporaries, custom result names, double/int/float returns, nested and repeated calls, "
+                     "plus DeltaR / isNonnull / getAttributeFloat / getAttributeVectorFloat: every call is checked by a contract inside the translating process and the compiled job's values are "
+                     "compared with the same arithmetic evaluated by Python; wrong arity and call style must be refused.",
+                note="executable bodies are restricted to arithmetic so Python can evaluate them; contract evaluations are counted (zero = inconclusive)", ref="4/C11"),
 }
 
 PENDING_REASON = "check not built yet at this commit (work in progress, see DESIGN.md section 4)"
